@@ -46,12 +46,16 @@ def run_one(argv, mode, k, cwd, stdin=b''):
                 p = subprocess.run(argv, stdout=out, stderr=errf, input=stdin, cwd=cwd, env=env, preexec_fn=limited(None), timeout=30)
             written = 0
         elif mode == 'pipe':
-            r, w = os.pipe()
-            os.close(r)
+            # The reader-less pipe is made *in the child* (after fork): a pipe made in this multi-threaded parent could be
+            # held open for a moment by another thread's freshly forked child (before its exec closes the descriptor), and
+            # the write would then succeed - a race that showed up as a false alarm under load.
             def pre():
                 signal.signal(signal.SIGPIPE, signal.SIG_IGN)
-            p = subprocess.run(argv, stdout=w, stderr=errf, input=stdin, cwd=cwd, env=env, preexec_fn=pre, timeout=30)
-            os.close(w)
+                r, w = os.pipe()
+                os.close(r)
+                os.dup2(w, 1)
+                os.close(w)
+            p = subprocess.run(argv, stderr=errf, input=stdin, cwd=cwd, env=env, preexec_fn=pre, timeout=30)
             written = 0
         else:
             with open('/dev/null', 'wb') as out:
